@@ -552,8 +552,14 @@ def run_config(contract, cfg, facets="VCSTRN", prime=None, tier="quick", max_pat
                                    if k.startswith(("s_", "k_", "a_"))}
                     if nm.startswith(("S.", "E.")) and outcome[0] == "ret":
                         # adversarial values of the witnesses this function allocates itself, in order
-                        ob["forge"] = [model.get(str(e.var.a)) for e in g.trace[start:]
-                                       if isinstance(e, gh.Alloc) and e.var.kind == "priv"]
+                        # and of the results of callees that merely allocate a witness (PrivValBool, ...)
+                        fg = []
+                        for e in g.trace[start:]:
+                            if isinstance(e, gh.Alloc) and e.var.kind == "priv":
+                                fg.append(model.get(str(e.var.a)))
+                            elif isinstance(e, gh.Grp) and getattr(e, "witness_like", False) and len(getattr(e, "result_vars", [])) == 1:
+                                fg.append(model.get(str(e.result_vars[0].a)))
+                        ob["forge"] = fg
                 res["obligations"].append(ob)
         except (KeyboardInterrupt, MemoryError):
             raise
@@ -564,10 +570,14 @@ def run_config(contract, cfg, facets="VCSTRN", prime=None, tier="quick", max_pat
     if "T" in facets and res["sigs"]:
         sigs = res["sigs"]
         first = next(iter(sigs.values()))[0]
+        first_psig = next(iter(sigs))
+        pm = res.get("path_models", {})
         for psig, (s, secret) in sigs.items():
             res["obligations"].append(dict(name="T.shape", path=psig, backend="structural", s=0.0,
                                            verdict="proved" if s == first else "refuted",
-                                           **({} if s == first else {"detail": _sigdiff(first, s)})))
+                                           **({} if s == first else {"detail": _sigdiff(first, s),
+                                                                     "models": [pm.get(first_psig, {}), pm.get(psig, {})],
+                                                                     "model": pm.get(psig, {})})))
             res["obligations"].append(dict(name="T.public_coefficients", path=psig, backend="structural", s=0.0,
                                            verdict="proved" if not secret else "refuted",
                                            **({} if not secret else {"detail": secret[:3]})))
